@@ -50,6 +50,8 @@ def one(job):
 
 
 flt = sys.argv[1:]
+vflt = [v for v in os.environ.get("CROSS_VARIANTS", "").split(",") if v]        # optional: only variants whose name contains one of these
+OUT = os.environ.get("CROSS_OUT", "/tmp/cross_results.json")
 jobs = []
 for s in SEEDS:
     prop = os.path.basename(s).split("-")[0]
@@ -58,6 +60,8 @@ for s in SEEDS:
     ts = set(touched(s + "/patch.diff"))
     for r in REFS:
         if os.path.basename(r).split("-")[0] != prop:
+            continue
+        if vflt and not any(v in os.path.basename(r) for v in vflt):
             continue
         if ts & set(touched(r + "/patch.diff")):
             jobs.append((s, r))
@@ -69,4 +73,4 @@ for s, r, rc in res:
     if rc in (0, 2):
         print("%s on %s -> exit %s" % (os.path.basename(s), os.path.basename(r), rc))
 print("combinations: %d  outcomes: %s" % (len(res), tally))
-json.dump([{"seed": os.path.basename(s), "variant": os.path.basename(r), "exit": rc} for s, r, rc in res], open("/tmp/cross_results.json", "w"), indent=1)
+json.dump([{"seed": os.path.basename(s), "variant": os.path.basename(r), "exit": rc} for s, r, rc in res], open(OUT, "w"), indent=1)
